@@ -5,11 +5,12 @@ import SqlizeModel.Driver.Script
 import SqlizeModel.Driver.Hash
 import SqlizeModel.Driver.Calls
 import SqlizeModel.Driver.Version
+import SqlizeModel.Driver.Files
 
 open Sqlize Sqlize.Driver
 
 def handlers : List (String × Handler) :=
-  [("snake", snakeHandler), ("pair", pairHandler), ("script", scriptHandler), ("hash", hashHandler), ("calls", callsHandler), ("version", versionHandler), ("versionexcl", versionExclHandler)]
+  [("snake", snakeHandler), ("pair", pairHandler), ("script", scriptHandler), ("hash", hashHandler), ("calls", callsHandler), ("version", versionHandler), ("versionexcl", versionExclHandler), ("files", filesHandler), ("filesread", filesReadHandler), ("filesmisc", filesMiscHandler), ("filesseq", filesSeqHandler), ("filesseqfast", filesSeqFastHandler)]
 
 def handleLine (line : String) : String :=
   match SExp.parse line with
